@@ -18,6 +18,6 @@ ASSUMPTIONS = ["model instances are only mutated through the descriptors (statem
 def run(project, rep):
     schema = Schema(project)
     schema.check_floors()
-    A.a_r1_getattr(schema, rep)
-    A.a_r2_r3_properties(schema, rep)
-    A.a_r4_ofx(schema, rep)
+    rep.run(A.a_r1_getattr, schema, rep)
+    rep.run(A.a_r2_r3_properties, schema, rep)
+    rep.run(A.a_r4_ofx, schema, rep)
